@@ -11,8 +11,8 @@ from pathlib2 import lookup_callee
 
 CONTAINER = re.compile(
     r"^(&(mut )?)*(core::option::Option<|core::result::Result<|core::ops::ControlFlow<|core::iter::|core::slice::iter::|core::slice::Iter|"
-    r"core::slice::Chunks|alloc::vec::Vec<|alloc::vec::IntoIter<|alloc::vec::into_iter::|core::array::IntoIter<|core::array::iter::|core::ops::Range<|core::ops::RangeInclusive<|"
-    r"\[[^;\]]*\]$|impl |<.* as core::iter::IntoIterator>::IntoIter|zeroize::Zeroizing<alloc::vec::Vec<|alloc::boxed::Box<\[|core::iter::adapters::)")
+    r"core::slice::Chunks|(\w+::)?alloc::vec::Vec<|(\w+::)?alloc::vec::IntoIter<|(\w+::)?alloc::vec::into_iter::|core::array::IntoIter<|core::array::iter::|core::ops::Range<|core::ops::RangeInclusive<|"
+    r"\[[^;\]]*\]$|impl |<.* as core::iter::IntoIterator>::IntoIter|zeroize::Zeroizing<(\w+::)?alloc::vec::Vec<|(\w+::)?alloc::boxed::Box<\[|core::iter::adapters::)")
 
 # extern calls that never branch on / index by the *values* they are given (lengths and shapes are public)
 VETTED = re.compile("|".join([
@@ -60,8 +60,155 @@ PREDICATE_ADAPTERS = re.compile(r"as core::iter::(Iterator|DoubleEndedIterator)>
 VARTIME = re.compile(r"vartime|::non_adjacent_form$|NafLookupTable\d<.*>::select$|scalar_mul::pippenger|::from_repr_vartime$|::is_zero_vartime$|::sqrt_tonelli_shanks|VartimePrecomputed")
 
 
+_SUM_CACHE = {}
+
+
+def _summaries_for(F):
+    if id(F) not in _SUM_CACHE:
+        _SUM_CACHE[id(F)] = Summaries(F)
+    return _SUM_CACHE[id(F)]
+
+
 def is_container(ty):
     return CONTAINER.search(ty) is not None
+
+
+class Summaries:
+    """Per-function transfer summaries: which parameters the return value / each by-reference parameter's
+    pointee may depend on (flow-insensitive set propagation; extern calls depend on all their arguments)."""
+
+    def __init__(self, F):
+        self.F = F
+        self.sum = {}
+        self.busy = set()
+
+    def get(self, f):
+        k = f["key"]
+        if k in self.sum:
+            return self.sum[k]
+        if k in self.busy:
+            return None
+        self.busy.add(k)
+        r = self._compute(f)
+        self.busy.discard(k)
+        self.sum[k] = r
+        return r
+
+    def _compute(self, f):
+        F = self.F
+        fv = view(F, f)
+        n = fv.nargs
+        dep = {i: {i} for i in range(1, n + 1)}
+        locals_ = fv.locals
+
+        def od(o):
+            if o[0] == "k":
+                return set()
+            return dep.get(o[1][0], set())
+
+        changed = True
+        rounds = 0
+
+        def add(l, s_):
+            nonlocal changed
+            if not s_:
+                return
+            cur = dep.setdefault(l, set())
+            if not s_ <= cur:
+                cur |= s_
+                changed = True
+
+        while changed and rounds < 40:
+            changed = False
+            rounds += 1
+            for bi, b in enumerate(fv.blocks):
+                for s in b["s"]:
+                    if s[0] != "=":
+                        continue
+                    (dst, dproj), rv = s[1], s[2]
+                    k = rv[0]
+                    src = set()
+                    if k == "use":
+                        src = od(rv[1])
+                    elif k == "bin":
+                        src = od(rv[2]) | od(rv[3])
+                    elif k == "un":
+                        src = set() if rv[1] == "PtrMetadata" else od(rv[2])
+                    elif k == "cast":
+                        src = od(rv[2])
+                    elif k in ("ref", "rawptr"):
+                        src = dep.get(rv[2][0], set())
+                    elif k == "agg":
+                        for o in rv[2]:
+                            src = src | od(o)
+                    elif k == "repeat":
+                        src = od(rv[1])
+                    elif k == "disc":
+                        src = dep.get(rv[1][0], set())
+                    add(dst, src)
+                    if dproj and any(e == "*" for e in dproj):
+                        for tgt in fv.mut_targets(dst):
+                            add(tgt, src)
+                t = b.get("t")
+                if not t or t["k"] != "call":
+                    continue
+                nme = cname(t)
+                args = t["args"]
+                ads = [od(a) for a in args]
+                g = lookup_callee(F, t)
+                gs = self.get(g) if g is not None and "mir" in g else None
+                if gs is not None:
+                    rd = set()
+                    gn = g["mir"]["arg_count"]
+                    spread = g["mir"].get("spread_arg")
+                    for pi in gs["ret"]:
+                        ai = pi - 1
+                        if spread is not None and pi >= spread:
+                            ai = spread - 1
+                        if 0 <= ai < len(ads):
+                            rd |= ads[ai]
+                    add(t["dest"][0], rd)
+                    for pj, ds_ in gs["mut"].items():
+                        aj = pj - 1
+                        if aj >= len(args):
+                            continue
+                        pl = op_place(args[aj])
+                        if pl is None:
+                            continue
+                        wd = set()
+                        for pi in ds_:
+                            ai = pi - 1
+                            if spread is not None and pi >= spread:
+                                ai = spread - 1
+                            if 0 <= ai < len(ads):
+                                wd |= ads[ai]
+                        for tgt in fv.mut_targets(pl[0]):
+                            add(tgt, wd)
+                else:
+                    if PUBLIC_RESULT.search(nme):
+                        allsrc = set()
+                    else:
+                        allsrc = set()
+                        for a in ads:
+                            allsrc |= a
+                    add(t["dest"][0], allsrc)
+                    full = set()
+                    for a in ads:
+                        full |= a
+                    for a in args:
+                        pl = op_place(a)
+                        if pl is None:
+                            continue
+                        aty = locals_[pl[0]]["ty"]
+                        if aty.startswith("&mut") or aty.startswith("*mut"):
+                            for tgt in fv.mut_targets(pl[0]):
+                                add(tgt, full)
+        mut = {}
+        for i in range(1, n + 1):
+            ty = locals_[i]["ty"]
+            if ty.startswith("&mut") or ty.startswith("*mut"):
+                mut[i] = set(dep.get(i, set()))
+        return {"ret": set(dep.get(0, set())), "mut": mut}
 
 
 class Taint:
@@ -79,6 +226,7 @@ class Taint:
         self.reached = {}
         self.n_calls = 0
         self._done = set()
+        self.S = _summaries_for(F)
 
     # ------------------------------------------------------------------ driving
     def add_root(self, f, public_params=()):
@@ -195,7 +343,7 @@ class Taint:
                         if lev:
                             raise_(dst, 1 if is_container(dty) else 2)
                             if any(e == "*" for e in dproj):
-                                for tgt in fv._mutref_targets(dst, set()):
+                                for tgt in fv.mut_targets(dst):
                                     raise_(tgt, 1 if is_container(locals_[tgt]["ty"]) else 2)
                     else:
                         if lev:
@@ -204,6 +352,7 @@ class Taint:
                 if not t:
                     continue
                 if t["k"] == "call":
+                    self._cur_live = bi in fv.live_blocks()
                     self._call(f, fv, lv, bi, t, raise_)
         # sinks (evaluated on the final levels)
         self._sinks(f, fv, lv)
@@ -274,21 +423,28 @@ class Taint:
                         ch = True
             if ch or gk not in self.lv_done():
                 self._enqueue(gk)
-            rl = glv.get(0, 0)
-            ret = rl
+            gs = self.S.get(g) or {"ret": set(range(1, gn + 1)), "mut": {i: set(range(1, gn + 1)) for i in range(1, gn + 1)}}
+
+            def arg_level_of_param(pi):
+                ai = pi - 1
+                if spread is not None and pi >= spread:
+                    ai = spread - 1
+                return alv[ai] if 0 <= ai < len(alv) else 0
+            rl = max([arg_level_of_param(pi) for pi in gs["ret"]] + [0])
+            ret = 0
             if rl:
                 ret = 1 if is_container(dty) else 2
-            # writes through &mut params
-            for i, a in enumerate(args):
-                pl = op_place(a)
+            # writes through &mut params (per the callee's transfer summary)
+            for pj, ds_ in gs["mut"].items():
+                aj = pj - 1
+                if aj >= len(args):
+                    continue
+                pl = op_place(args[aj])
                 if pl is None:
                     continue
-                aty = fv.locals[pl[0]]["ty"]
-                if aty.startswith("&mut") or aty.startswith("*mut"):
-                    pi = i + 1
-                    if glv.get(pi, 0):
-                        for tgt in fv._mutref_targets(pl[0], set()):
-                            raise_(tgt, 1 if is_container(fv.locals[tgt]["ty"]) else 2)
+                if max([arg_level_of_param(pi) for pi in ds_ if pi != pj] + [0]):
+                    for tgt in fv.mut_targets(pl[0]):
+                        raise_(tgt, 1 if is_container(fv.locals[tgt]["ty"]) else 2)
         else:
             # extern (or unresolved trait method on a type parameter)
             unresolved_local = t.get("resolved") is None and t.get("callee_trait")
@@ -369,7 +525,7 @@ class Taint:
                         continue
                     aty = fv.locals[pl[0]]["ty"]
                     if aty.startswith("&mut") or aty.startswith("*mut"):
-                        for tgt in fv._mutref_targets(pl[0], set()):
+                        for tgt in fv.mut_targets(pl[0]):
                             raise_(tgt, 1 if is_container(fv.locals[tgt]["ty"]) else 2)
         if ret:
             if t["dest"][1]:
@@ -417,6 +573,8 @@ class Taint:
 
     # ------------------------------------------------------------------ sinks
     def _sink(self, f, kind, detail, loc, msg):
+        if kind in ("predicate-call", "unvetted-call") and not getattr(self, "_cur_live", True):
+            return
         key = (f["key"], kind, detail[:160])
         if key not in self.sinks:
             self.sinks[key] = (loc, msg, f)
